@@ -53,16 +53,15 @@ def chunks_in_order(chunks, dgrams):
     return True
 
 
-def hello_records(conn):
-    """raw ClientHello / ServerHello records as sent (first handshake record of each direction's stream)"""
+def hello_records(conn, script=None):
+    """raw ClientHello / ServerHello records as sent (first handshake record of each direction's stream), taken from
+    the sender's own record log (the packet list may hold duplicates and repacketised retransmissions)"""
     out = []
     for d in (0, 1):
-        segs = sorted({conn.offset(k): p for k, (_, _, dd, _, p) in enumerate(conn.pkts) if dd == d}.items())
-        stream = b"".join(p for _, p in segs)
-        if len(stream) >= 5 and stream[0] == 22:
-            n = 5 + int.from_bytes(stream[3:5], "big")
+        first = script.rec_log[d][0] if script is not None and script.rec_log[d] else None
+        if first is not None and first[0] == "clear" and first[1][:1] == b"\x16":
             # the ServerHello record may group further handshake messages: it is still exported as that record
-            out.append((d, stream[:n]))
+            out.append((d, first[1]))
     return out
 
 
@@ -93,7 +92,7 @@ def one(job):
             added += len(b) - len(a)
             if not is_subsequence(a, b):
                 fails.append(f"tls-appdata-changed: {c['script'].v}: {len(a)} data packets without -a are not a subsequence of the {len(b)} with -a")
-            for d, rec in hello_records(conn):
+            for d, rec in hello_records(conn, c["script"]):
                 run_ = b"".join(p for _, dd, p in b if dd == (d == 0))
                 # the record must be exported verbatim: some run of consecutive packets of that direction concatenates to it
                 segs = [p for _, dd, p in b if dd == (d == 0)]
